@@ -374,6 +374,22 @@ def enum_pairs(seed):
             ("StrGlobMatch('AB', case_sensitive=False)", values.StrGlobMatch("AB", case_sensitive=False)), ("StrGlobMatch('ab', case_sensitive=False)", values.StrGlobMatch("ab", case_sensitive=False)),
             ("StrGlobMatch('ab', negate=True)", values.StrGlobMatch("ab", negate=True))]
     compare("value", vals, ["ab", "Ab", "AB", "abc", "cab", "b", ""], lambda r, v: r.match(v))
+    # the whole constructor grid of the string matchers: every argument that takes part in matching takes part in equality
+    grid = []
+    for pat in (r"\d", r"\D", r"\w", r"\W", r"\s", r"\S", "a", "A", "[a-z]b", "[A-Z]b", "^ab", "ab$", "a.", r"a\."):
+        for cs in (True, False):
+            for full in (False, True):
+                for neg in (False, True):
+                    grid.append((f"StrRegex({pat!r}, case_sensitive={cs}, match={full}, negate={neg})", values.StrRegex(pat, case_sensitive=cs, match=full, negate=neg)))
+    for text in ("ab", "Ab", "AB", "a", "b"):
+        for cs in (True, False):
+            for neg in (False, True):
+                grid.append((f"StrExactMatch({text!r}, case_sensitive={cs}, negate={neg})", values.StrExactMatch(text, case_sensitive=cs, negate=neg)))
+                for pre in (True, False):
+                    grid.append((f"StrGlobMatch({text!r}, case_sensitive={cs}, prefix={pre}, negate={neg})", values.StrGlobMatch(text, case_sensitive=cs, prefix=pre, negate=neg)))
+    for _, o in grid:
+        hash(o)   # the string matchers cache their hash; take it for all of them so that equality is asked of like objects
+    compare("string_matcher", grid, ["ab", "Ab", "AB", "aB", "abc", "cab", "a", "A", "b", "1", " ", "a1", "a b", "", "x\tb", "a."], lambda r, v: bool(r.match(v)))
     cm = [("ContainmentMatch(frozenset('xy'))", values.ContainmentMatch(frozenset(("x", "y")))), ("ContainmentMatch(frozenset('yx'))", values.ContainmentMatch(frozenset(("y", "x")))),
           ("ContainmentMatch(frozenset('xy'), match_all=True)", values.ContainmentMatch(frozenset(("x", "y")), match_all=True)),
           ("ContainmentMatch(frozenset('x'))", values.ContainmentMatch(frozenset(("x",)))), ("ContainmentMatch(frozenset('xy'), negate=True)", values.ContainmentMatch(frozenset(("x", "y")), negate=True))]
